@@ -268,3 +268,36 @@ package gortsplib
 //@ func contextToMikey
 //@   opt frame-tag=C20
 //@   modifies fresh
+
+// --- C19: session lookup by id ---------------------------------------------------------------
+// A session handed to a connection is either the one just created for it (the connection is its
+// author) or an existing one whose author has the same IP and zone: knowing a session id is not
+// enough to enter a session from another address, whatever the request's method is.
+//@ func (s *Server) runInner
+//@   opt inline=0
+//@   opt sole-writer=ServerSession.author
+//@   assert[C19]@send:serverFindOrCreateSessionRes arg(0).ss != nil ==> arg(0).ss.author == req.sc || (ipeq(ref(req.sc.remoteAddr.IP), off(req.sc.remoteAddr.IP), len(req.sc.remoteAddr.IP), ref(arg(0).ss.author.remoteAddr.IP), off(arg(0).ss.author.remoteAddr.IP), len(arg(0).ss.author.remoteAddr.IP)) && req.sc.remoteAddr.Zone == arg(0).ss.author.remoteAddr.Zone)
+//@   modifies *
+//@ func (sc *ServerConn) ip
+//@   ensures[C19] sameslice(ret, sc.remoteAddr.IP)
+//@   modifies nothing
+//@ func (sc *ServerConn) zone
+//@   ensures[C19] ret == sc.remoteAddr.Zone
+//@   modifies nothing
+
+// --- C10: what the server does when the application reports an authentication failure -----------
+// credprov(req): what credentialsProvided answers for the request (defines: the function is by
+// definition what the name means; sound here because handleAuthError asks once, about the request it
+// is handling, and nothing changes the request in between).
+// A request WITHOUT credentials gets the challenge and the connection is kept (nil error); a request
+// WITH (wrong) credentials ends the connection - decided on the request being handled, not on
+// anything remembered from an earlier request.
+//@ ufun credprov(r *base.Request) bool
+//@ func credentialsProvided
+//@   defines credprov(req)
+//@   modifies fresh
+//@ func (sc *ServerConn) handleAuthError
+//@   requires res != nil && req != nil
+//@   ensures[C10] credprov(req) ==> err != nil
+//@   ensures[C10] !credprov(req) ==> err == nil && has(res.Header, "WWW-Authenticate")
+//@   modifies *
